@@ -134,6 +134,98 @@ def norm_expr(e, written):
     return e
 
 
+_CTX = {'stores': []}
+
+
+def _parse_tag(t):
+    s_ = str(t)
+    if ':' not in s_:
+        return None
+    pth, m = s_.rsplit(':', 1)
+    comps = [c for c in pth.split('/') if c]
+    return comps, int(m)
+
+
+def _lvl(comp):
+    return int(''.join(ch for ch in comp if ch.isdigit()))
+
+
+def _between(t1, t2):
+    """stores (records of _CTX['stores']) that may execute between the memory states t1 and t2 (over-approximation)"""
+    p1, m1 = t1
+    p2, m2 = t2
+    k = 0
+    while k < len(p1) and k < len(p2) and p1[k] == p2[k]:
+        k += 1
+    pc = p1[:k]
+    lo1 = _lvl(p1[k]) if len(p1) > k else m1
+    hi1 = _lvl(p1[k]) if len(p1) > k else m1 - 1
+    lo2 = _lvl(p2[k]) if len(p2) > k else m2
+    hi2 = _lvl(p2[k]) if len(p2) > k else m2 - 1
+    lo, hi = min(lo1, lo2), max(hi1, hi2)
+    out = []
+    for st in _CTX['stores']:
+        ps = st['path']
+        if ps[:k] != pc:
+            continue
+        idx = _lvl(ps[k]) if len(ps) > k else st['mem']
+        if lo <= idx <= hi:
+            out.append((st, k))
+    return out
+
+
+def _tag_justified(a, x, y, facts):
+    """x and y are equal once the memory-state tags of loads are ignored: every load read at different states on the two sides
+    must be of a cell that no store between the two states can write"""
+    lx = {}
+    for t in x.atoms(sp.Function):
+        if t.func == ld:
+            lx.setdefault((t.args[0], sp.expand(t.args[1])), set()).add(t.args[2])
+    ly = {}
+    for t in y.atoms(sp.Function):
+        if t.func == ld:
+            ly.setdefault((t.args[0], sp.expand(t.args[1])), set()).add(t.args[2])
+    for key in set(lx) | set(ly):
+        tags = lx.get(key, set()) | ly.get(key, set())
+        tags = [t for t in tags if t != ANY]
+        if len(tags) <= 1:
+            continue
+        parsed = [_parse_tag(t) for t in tags]
+        if any(p_ is None for p_ in parsed):
+            return False
+        base, idx = key
+        for i in range(len(parsed)):
+            for j in range(i + 1, len(parsed)):
+                for st, depth in _between(parsed[i], parsed[j]):
+                    if st['base'] is None:
+                        return False          # a call in between may write anything
+                    if str(st['base']) != str(base):
+                        continue
+                    # counters of loops below the common level are other iterations: fresh symbols with the same ranges
+                    sub = {}
+                    f2 = list(facts)
+                    for q, (cnt, T) in enumerate(st['loops']):
+                        if q >= depth_loops(st, depth):
+                            fr = sp.Symbol('o_%s' % cnt, integer=True, nonnegative=True)
+                            sub[cnt] = fr
+                            f2.append(fr)
+                            if T is not None:
+                                f2.append(sp.sympify(T).subs(sub) - 1 - fr)
+                    sidx = sp.expand(sp.sympify(st['idx']).subs(sub))
+                    d = sp.expand(sidx - idx)
+                    try:
+                        if not (a.prove_ge0(d - 1, f2) or a.prove_ge0(-d - 1, f2)):
+                            return False
+                    except Exception:
+                        return False
+    return True
+
+
+def depth_loops(st, depth):
+    """number of enclosing loops of the store that belong to the common prefix (path components that are loops, not if-arms)"""
+    return sum(1 for c in st['path'][:depth] if c.isdigit())
+
+
 def same(a, x, y, facts):
     """exact-real equality of two value terms"""
     if x is None or y is None:
@@ -149,6 +241,13 @@ def same(a, x, y, facts):
             return True
     except Exception:
         pass
+    if isinstance(x, sp.Basic) and isinstance(y, sp.Basic) and (x.has(ld) or y.has(ld)):
+        strip = lambda e: e.replace(ld, lambda b, i, t: ld(b, sp.expand(i), ANY))
+        try:
+            if sp.expand(strip(x) - strip(y)) == 0 and _tag_justified(a, x, y, facts):
+                return True
+        except Exception:
+            pass
     if isinstance(x, sp.Basic) and not (x.has(ld) or y.has(ld) or x.has(sel) or y.has(sel)):
         try:
             return a.prove_eq(x, y, facts)
@@ -205,6 +304,27 @@ class Matcher:
         self.base = list(base_facts)
         self.bind = {}       # impl opaque symbol -> spec fold symbol
         self.nstmt = 0
+        _CTX['stores'] = []
+        self.collect(impl, [], [])
+
+    def collect(self, items, path, loops):
+        mem = 0
+        for t in items:
+            if t[0] == 'store':
+                _CTX['stores'].append(dict(path=list(path), mem=mem, base=t[1], idx=t[2], loops=list(loops)))
+                mem += 1
+            elif t[0] == 'call':
+                _CTX['stores'].append(dict(path=list(path), mem=mem, base=None, idx=None, loops=list(loops)))
+                mem += 1
+            elif t[0] == 'loop':
+                self.collect(t[3], path + [str(mem)], loops + [(t[1], t[2])])
+                mem += 1
+            elif t[0] == 'if':
+                self.collect(t[2], path + ['%dt' % mem], loops)
+                self.collect(t[3], path + ['%de' % mem], loops)
+                mem += 1
+            elif t[0] == 'exitif':
+                self.collect(t[2], path + ['%dx' % mem], loops)
 
     def N(self, e):
         if isinstance(e, sp.Basic) and self.bind:
